@@ -86,6 +86,35 @@ pub struct TurnCfg {
     /// delay per turn class in `unit`: [no_turn, slight_right, slight_left, right, left, sharp_right, sharp_left, u_turn]
     pub delays: [f64; 8],
     pub unit: TimeUnit,
+    /// edges whose departure heading is left blank: such an edge ends with the heading it starts with
+    /// (empty = none; `no_departure_column` leaves the whole column out of the file)
+    #[serde(default)]
+    pub blank_departure: Vec<bool>,
+    #[serde(default)]
+    pub no_departure_column: bool,
+}
+
+impl TurnCfg {
+    pub fn is_blank(&self, e: usize) -> bool {
+        self.no_departure_column || self.blank_departure.get(e).copied().unwrap_or(false)
+    }
+    /// heading at the end of edge e
+    pub fn end_heading(&self, e: usize) -> i16 {
+        if self.is_blank(e) { self.headings[e].0 } else { self.headings[e].1 }
+    }
+    pub fn real_headings(&self) -> Vec<EdgeHeading> {
+        (0..self.headings.len())
+            .map(|e| {
+                let (a, d) = self.headings[e];
+                if self.is_blank(e) {
+                    // no constructor leaves the departure heading out: through serde, the way a file row with an empty cell arrives
+                    serde_json::from_value(serde_json::json!({"arrival_heading": a, "departure_heading": null})).expect("harness: EdgeHeading without a departure heading")
+                } else {
+                    EdgeHeading::new(a, d)
+                }
+            })
+            .collect()
+    }
 }
 
 #[derive(Clone, Debug, Serialize, Deserialize, PartialEq)]
@@ -281,7 +310,7 @@ impl World {
         match &self.turn {
             None => Arc::new(NoAccessModel {}),
             Some(t) => {
-                let headings: Vec<EdgeHeading> = t.headings.iter().map(|(a, d)| EdgeHeading::new(*a, *d)).collect();
+                let headings: Vec<EdgeHeading> = t.real_headings();
                 let mut table = HashMap::new();
                 for i in 0..8 {
                     table.insert(turn_of(i), Time::new(t.delays[i]));
@@ -358,7 +387,7 @@ impl World {
             }
         };
         let turn = self.turn.as_ref().map(|t| {
-            let headings: Vec<EdgeHeading> = t.headings.iter().map(|(a, d)| EdgeHeading::new(*a, *d)).collect();
+            let headings: Vec<EdgeHeading> = t.real_headings();
             let mut table = HashMap::new();
             for i in 0..8 {
                 table.insert(turn_of(i), Time::new(t.delays[i]));
@@ -441,7 +470,7 @@ impl World {
         match &self.turn {
             None => 0.0,
             Some(t) => {
-                let c = ref_turn_class(t.headings[prev].1, t.headings[next].0);
+                let c = ref_turn_class(t.end_heading(prev), t.headings[next].0);
                 t.delays[c] * ru::time_s(&t.unit) / ru::time_s(&self.feat_time_unit)
             }
         }
